@@ -277,13 +277,14 @@ CHECKS = {
         'assumptions': ['theorems are about the reference evaluator; the implementation is tied to it on the generated programs only', 'names in the naming hypotheses (Names) are plain identifiers; pattern parameters are not modelled'],
     },
     'C07': {
-        'lean_modules': ['Pangaea.Theorems.C07'],
-        'theorem_modules': ['Pangaea.Theorems.C07'],
+        'lean_modules': ['Pangaea.Theorems.C07', 'Pangaea.Theorems.C07Any'],
+        'theorem_modules': ['Pangaea.Theorems.C07', 'Pangaea.Theorems.C07Any'],
         'theorems': ['Pangaea.C07.' + t for t in ['infix_left', 'infix_right', 'shortcut_right', 'prefix_operand', 'assigned', 'if_condition', 'if_then', 'if_else', 'range_start', 'range_stop', 'range_step',
                      'elems_head', 'elems_head_unpacked', 'elems_tail', 'arr_literal', 'args_head', 'args_head_unpacked_arr', 'args_head_unpacked_obj', 'args_tail', 'kws_head', 'kws_tail',
                      'call_receiver', 'call_chain_argument', 'call_arguments', 'call_keyword_arguments', 'litcall_receiver', 'litcall_callee', 'pair_value_named', 'pair_value_computed', 'pair_key_computed',
                      'pairs_tail_named', 'obj_pairs', 'obj_unpacked_head', 'obj_unpacked', 'embedded_part_head', 'embedded_str', 'default_value', 'stmt_expr', 'stmt_return', 'stmt_condition',
-                     'stmts_head', 'stmts_tail', 'body', 'call_body', 'stmts_head_defers', 'thoughtful_catches', 'nested_example', 'unchecked_results_are_the_reviewed_ones']],
+                     'stmts_head', 'stmts_tail', 'body', 'call_body', 'stmts_head_defers', 'thoughtful_catches', 'nested_example', 'unchecked_results_are_the_reviewed_ones',
+                     'arr_any_position', 'arr_any_position_unpacked', 'infix_left_any', 'infix_right_any', 'assigned_any', 'raises_unique', 'raises_excludes_value', 'stmts_any_position', 'program_any_position', 'args_any_position', 'call_any_argument_position']],
         'harness': ['C07'],
         'generated': ['C07'],
         'shards': 14,
